@@ -138,7 +138,7 @@ impl Property for C07 {
         vec!["operands of equal shapes; divisor coefficients (matrix and bias) are non-zero powers of two so every quotient is exact and normal".into(), "the affine operand has the shape of the terminals (coefficient-wise operators)".into()]
     }
     fn cases(&self, tier: Tier) -> usize {
-        tier.pick(2400, 25_000)
+        tier.pick(2400, 60_000)
     }
     fn strategy(&self, tier: Tier) -> BoxedStrategy<Case> {
         let maxd = tier.pick(3u32, 4u32);
